@@ -233,10 +233,13 @@ func cmdCheck(args []string) int {
 		}
 		fr.vc = vc
 		wg.Add(1)
+		// one sub-directory per package: two packages named alike (client, client/gnmi) both have a function New, and
+		// their query files must not overwrite each other
+		fdir := filepath.Join(workDir, sanitizeFile(c.Pkg))
 		go func(vc *VC) {
 			defer wg.Done()
 			ts := time.Now()
-			dischargeVC(vc, workDir, quickMs, slowMs, sem)
+			dischargeVC(vc, fdir, quickMs, slowMs, sem)
 			if *verbose {
 				fmt.Printf("  solve %.1fs (done at +%.1fs) %s\n", time.Since(ts).Seconds(), time.Since(t0).Seconds(), vc.Func)
 			}
